@@ -1,4 +1,5 @@
 import PysnarkModel.Lemmas.GuardedTransparentMeth
+import PysnarkModel.Lemmas.IteTag
 /-!
 # Transparency of a true guard: selection, unary operators, constructors, methods, arrays
 -/
@@ -24,6 +25,17 @@ theorem zipWithM'_tr {f1 f2 : Val → Val → M Val}
 theorem smallIntSame_veq {t1 t2 f1 f2 : Val} (ht : VRel t1 t2) (hf : VRel f1 f2) :
     smallIntSame t1 f1 = smallIntSame t2 f2 := by
   cases ht <;> cases hf <;> rfl
+
+/-- the retagging step: which arm is taken depends on the kinds only; the constructor's test reads the value -/
+theorem iteTag_tr {t1 t2 f1 f2 r1 r2 : Val} (ht : VRel t1 t2) (hf : VRel f1 f2) (hr : VRel r1 r2) :
+    Tr VRel (iteTag t1 f1 r1) (iteTag t2 f2 r2) := by
+  cases ht
+  case lcb h1 =>
+    cases hf
+    case lcb h2 => cases hr <;> simp only [iteTag] <;> trv
+    all_goals (rw [iteTag_other _ rfl, iteTag_other _ rfl]; exact Tr.pure hr)
+  all_goals (rw [iteTag_other _ rfl, iteTag_other _ rfl]; exact Tr.pure hr)
+macro_rules | `(tactic| tr_rule) => `(tactic| with_reducible apply iteTag_tr)
 
 theorem iteAux_tr {c1 c2 : LinComb} (hc : vEq c1 c2) : ∀ (n : Nat) {t1 t2 f1 f2 : Val},
     VRel t1 t2 → VRel f1 f2 → Tr VRel (iteAux c1 n t1 f1) (iteAux c2 n t2 f2) := by
